@@ -134,5 +134,5 @@ package iscp
 //@   ensures imp(result1 == nil, result0.SequenceNumber == dps.StreamChunk.SequenceNumber && result0.UpstreamInfo != nil && len(result0.DataPointGroups) == len(dps.StreamChunk.DataPointGroups))
 //@   ensures imp(result1 == nil && upAliasForm(dps.UpstreamOrAlias), *result0.UpstreamInfo == *d.upstreamInfos[unbox(dps.UpstreamOrAlias, message.UpstreamAlias)])
 //@   ensures imp(result1 == nil && upFullForm(dps.UpstreamOrAlias), *result0.UpstreamInfo == *unbox(dps.UpstreamOrAlias, *message.UpstreamInfo))
-//@   loop 1 invariant fresh(dpgs) && len(dpgs) == rangeindex + 1
+//@   loop 1 invariant fresh(dpgs) && len(dpgs) == rangeindex + 1 && rangeindex < len(dps.StreamChunk.DataPointGroups)
 //@   loop 1 invariant forall(i, int, imp(0 <= i && i <= rangeindex, knownID(d, dps.StreamChunk.DataPointGroups[i].DataIDOrAlias)))
